@@ -196,7 +196,10 @@ def main():
             go_open = r.get('open') == 'ok'
             m_open = m.get('open') == 'ok'
             limitish = 'limit' in (m.get('end') or '') or 'limit' in (r.get('err') or '').lower() or 'alloc' in (r.get('err') or '').lower() or 'other' in (m.get('end') or '')
-            if go_open != m_open or (go_open and not limitish and (r.get('nrec') != len(m.get('recs', [])) or (r.get('err') == 'eof') != (m.get('end') == 'eos'))):
+            # io.EOF is returned by the Go reader both at the clean end and when a decoder over-reads a
+            # column: compare only "clean end in the model => io.EOF in the implementation"
+            end_ok = (m.get('end') != 'eos') or (r.get('err') == 'eof')
+            if go_open != m_open or (go_open and not limitish and (r.get('nrec') != len(m.get('recs', [])) or not end_ok)):
                 verdict.violation(dict(case=dict(id=c['id'], root=c['root'], kind=c['kind'], stream=c['stream']), implementation=r, model=m.get('raw'),
                                        broken='correspondence C03: outcome class / records before first error'),
                                   f'{c["id"]}: model and implementation disagree on {c["kind"]} input ({r.get("open")},{r.get("nrec")},{r.get("err")} vs {m.get("open")},{len(m.get("recs", []))},{m.get("end")})',
